@@ -106,6 +106,13 @@ pub fn verify_stark_proof_with_challenges_circuit<
 
     // degree_bits should be nonzero.
     let _ = builder.inverse(proof.degree_bits);
+    // Without a range of supported degrees (or with a range of one degree) the FRI proof is verified
+    // with the parameters of `degree_bits`, and nothing else ties the `degree_bits` target (which
+    // defines Z_H, the subgroup generator and the Lagrange selectors) to that degree.
+    if min_degree_bits_to_support.map_or(true, |min| min == degree_bits) {
+        let expected = builder.constant(F::from_canonical_usize(degree_bits));
+        builder.connect(proof.degree_bits, expected);
+    }
 
     let quotient_polys = &proof.openings.quotient_polys;
     let ctl_zs_first = &proof.openings.ctl_zs_first;
